@@ -178,3 +178,37 @@ Theorem C05_lit_nan_inst : forall c, eval_release c (value_to_ast true true (VNu
 Proof. exact lit_nan_inst. Qed.
 Check C05_lit_nan_inst : forall c, eval_release c (value_to_ast true true (VNum nnan)) = (Ok (VNum nnan), c).
 Print Assumptions C05_lit_nan_inst.
+
+(* ------------------------------------------------------------------------------------------ *)
+Require Import Blots.proofs.EmitClosed.
+
+(* P1 (closedness).  The free names of an inlined expression are free names of the original that
+   are not in the inlining scope (and not bound) — for every expression form: lambdas whose
+   parameters shadow a captured name, do-blocks whose locals shadow one, shorthand, spreads ... *)
+Theorem C05_inlined_free_vars : forall e m bound x,
+  lits_closed m ->
+  In x (free_vars (subst true m e) bound) ->
+  In x (free_vars e bound) /\ rec_get m x = None /\ mem x bound = false.
+Proof. exact subst_fv. Qed.
+Check C05_inlined_free_vars : forall e m bound x,
+  lits_closed m ->
+  In x (free_vars (subst true m e) bound) ->
+  In x (free_vars e bound) /\ rec_get m x = None /\ mem x bound = false.
+Print Assumptions C05_inlined_free_vars.
+
+(* ... hence, for first-order captured values: if every free name of the body is a parameter or
+   captured, the emitted body has NO free name (by the code's own collect_free_variables): it can
+   never fail with an unknown identifier where it is loaded.  (Captured closures: the literal of a
+   closure is closed under the same argument applied recursively; not carried out in Coq.) *)
+Theorem C05_emitted_body_closed : forall nanfix params body sv,
+  forallb (fun kv => fo (snd kv)) sv = true ->
+  (nanfix = true \/ existsb (fun kv => has_nan (snd kv)) sv = false) ->
+  (forall z, In z (free_vars body (map arg_name params)) -> rec_get sv z <> None) ->
+  free_vars (subst true (scope_map nanfix true sv) body) (map arg_name params) = [].
+Proof. exact emitted_body_closed. Qed.
+Check C05_emitted_body_closed : forall nanfix params body sv,
+  forallb (fun kv => fo (snd kv)) sv = true ->
+  (nanfix = true \/ existsb (fun kv => has_nan (snd kv)) sv = false) ->
+  (forall z, In z (free_vars body (map arg_name params)) -> rec_get sv z <> None) ->
+  free_vars (subst true (scope_map nanfix true sv) body) (map arg_name params) = [].
+Print Assumptions C05_emitted_body_closed.
